@@ -37,8 +37,9 @@ class Member:
 
 
 class Ownership:
-    def __init__(self, prog: Program, family_root: str = "KDTransform"):
+    def __init__(self, prog: Program, family_root: str = "KDTransform", exclude_attrs=("dataset", "datasets")):
         self.prog = prog
+        self.exclude_attrs = set(exclude_attrs)  # the wrapped dataset layer(s): not owned transforms
         self.types = AttrTypes(prog)
         self.root = prog.cls(family_root)
         self.family = prog.subclasses(self.root)
@@ -108,6 +109,8 @@ class Ownership:
         out: Dict[Member, Set[tuple]] = {}
         at = self.types.of(cls)
         for attr, ts in at.items():
+            if attr in self.exclude_attrs:
+                continue
             for t in ts:
                 if t[0] == "list":
                     elems = flatten({t})
@@ -193,6 +196,41 @@ class Forwarding:
     def __init__(self, prog: Program, own: Ownership):
         self.prog = prog
         self.own = own
+
+    def members(self, C: ClassInfo) -> Dict[Member, Set[tuple]]:
+        """Typed members (constructor analysis) plus members discovered by *use*: a receiver of a hook
+        call, of an ``isinstance(<recv>, <family class>)`` test or of a call with a ``ctx`` argument that
+        is reached through ``self`` (directly, as a loop element, or as an attribute of a loop element)."""
+        out = {m: set(ts) for m, ts in self.own.members(C).items()}
+        typed_attrs = {m.attr for m in out}
+        for K in C.mro_classes():
+            for fi in K.methods.values():
+                if fi.is_static or not fi.params():
+                    continue
+                fa = fa_of(self.prog, fi)
+                for n, call in fa.calls():
+                    recvs = []
+                    f = call.func
+                    if isinstance(f, ast.Attribute) and f.attr in HOOKISH and not _is_super(f.value):
+                        recvs.append(f.value)
+                    if isinstance(f, ast.Name) and f.id == "isinstance" and len(call.args) == 2:
+                        ks = self.own.guard_classes(fi, call.args[1]) or []
+                        if any(self.own.in_family(k) for k in ks):
+                            recvs.append(call.args[0])
+                    if any(k.arg == "ctx" for k in call.keywords):
+                        recvs.append(f)
+                    for r in recvs:
+                        m = self.access_of(fa, r, n)
+                        if m is None or m in out or m.attr in self.own.exclude_attrs:
+                            continue
+                        if m.kind == "attr" and m.attr in typed_attrs:
+                            continue
+                        if m.kind == "attr" and m.attr not in self.own.types.of(C):
+                            continue  # not an attribute the constructor chain assigns (e.g. self.dataset via base)
+                        if m.kind == "attr" and not any(t[0] in ("param", "tf?") for t in self.own.types.of(C)[m.attr]):
+                            continue
+                        out.setdefault(m, set()).add(("tf?",))
+        return out
 
     def access_of(self, fa: FA, e: ast.AST, at: int) -> Optional[Member]:
         """Which owned member does the receiver expression denote?"""
